@@ -104,7 +104,7 @@
     let ghost st_b = self.states@;
     proof { lemma_same_block(unused_base, c, h_lo(*helper), h_hi(*helper)); lemma_same_block(unused_base, c, kb * 256, kb * 256 + 256); }
 //@}
-//@after 1 if idx == ROOT_STATE_IDX || idx == DEAD_STATE_IDX || !helper.is_used_index(idx) {{
+//@after 1 if idx{
     proof {
         assert(c as int == it.index@);
         assert forall|x: u32| in_block(x as int, kb) && hfree(*helper, x as int) && ((unused_base ^ x) as u8 as int) < it.index@ + 1 implies
@@ -340,13 +340,12 @@
     let ghost states_b = self.states@;
     let ghost h_b = helper;
 //@}
-//@after 1 helper.use_base(base);{
+//@after 1 self.states[state_idx].set_base(base);{
     proof {
         // stage B: all children placed, the state gets its BASE
         assert(forall|c: u8| edges.contains_key(c) ==> placed.contains(c));
         lemma_window(h_b);
         lemma_bwb_finish(*nfa, states_b, self.states@, state_id_map@, inv, bowner, done, sid, base, placed, labels@[0]);
-        lemma_glue_base(h_b, helper, inv, bowner, base@ as int, sid);
         lemma_closed_frame(states_b, self.states@, inv, inv, bowner, bowner.insert(base@ as int, sid), h_lo(helper));
         bowner = bowner.insert(base@ as int, sid);
         done = done.insert(sid);
